@@ -98,7 +98,7 @@ def _real_obs(check, params, inputs):
         raise _RealTimeout()
     try:
         signal.signal(signal.SIGALRM, h)
-        signal.setitimer(signal.ITIMER_REAL, REAL_TIMEOUT)
+        signal.setitimer(signal.ITIMER_REAL, REAL_TIMEOUT, 5.0)   # periodic: see symcore._alarm
     except ValueError:
         pass
     try:
